@@ -6,7 +6,7 @@ Tie:    harness/simdrv.c <-> Drivers/SimMain.lean on generated scenarios (profil
 """
 import simcheck
 
-PROFILES = ['record', 'mixed']
+PROFILES = ['record', 'record2', 'mixed']
 
 
 def run(chk):
